@@ -18,7 +18,8 @@ Inductive ekind :=
 
 (* [enote]: 0 = nothing, 1 = wait_timeout returned without timeout, 2 = with timed_out().
    Pool events: ea = available_workers, eb = queue.len(), ec = shutting_down.
-   Group events: ea = thread_count, eb = shutting_down, ec = verif id of the spawned thread. *)
+   Group events: ea = thread_count, eb = shutting_down, ec = verif id of the spawned thread
+   (sd_g: number of pools drained; psd1: the pool was still registered). *)
 Record event := mkEvent { etid : nat; ek : ekind; enote : nat; ea : nat; eb : nat; ec : nat }.
 
 Fixpoint find_idx (f : pc -> bool) (l : list pc) (i : nat) : option nat :=
@@ -77,14 +78,14 @@ Definition main_label (s : state) (e : event) : option (label * bool) :=
   | ERWait => Some (LDrop i DWait, false)
   | ERespawnEnd => if ec e =? length (thr s) then Some (LDrop i DRespawn, false) else None
   | ERespawnFailEnd => Some (LDrop i DRespawnFail, false)
-  | ESdG => Some (LSdG i, false)
+  | ESdG => if ec e =? bool_nat (reg s) then Some (LSdG i, false) else None     (* ec = pools drained *)
   | EPoolSd =>
     match nth_error (thr s) i with
     | Some GHold => Some (LSdP i, true)
     | Some QMid => Some (LPsd2 i, true)
     | _ => None
     end
-  | EPsd1 => Some (LPsd1 i, false)
+  | EPsd1 => if ec e =? bool_nat (reg s) then Some (LPsd1 i, false) else None   (* ec = it was still registered *)
   | EAwWait => Some (LAwait i AWaitO, false)
   | EAwRet => Some (LAwait i ARet, false)
   end.
@@ -139,7 +140,7 @@ Definition accepts (fx : bool) (s : state) (evs : list event) : bool :=
 
 Definition quiescent (p : pc) : bool :=
   match p with
-  | SIdle [] | WExited | GDone | QDone | QIdle | AwRet => true
+  | SIdle [] | WExited | GDone | QDone | AwRet => true
   | _ => false
   end.
 Definition all_quiescent (s : state) : bool := forallb quiescent (thr s).
